@@ -132,7 +132,7 @@ func runConc(id int, r *rng.R, clk *vclock.Clock) (*concInput, []chainh.Failure,
 		fmu.Unlock()
 	}
 	// after every sequential case's window; strictly increasing with the id
-	clk.SetMs(chainh.CaseBaseMs(500000 + (id - concBase)))
+	chainh.SetCaseClock(clk, 500000+(id-concBase))
 	names := []string{concRes(id, 0), concRes(id, 1)}
 	var rules []*hotspot.Rule
 	for _, n := range names {
@@ -369,7 +369,7 @@ func runOnceRace(id int, r *rng.R, clk *vclock.Clock) (*onceInput, []chainh.Fail
 	fail := func(clause, sig, f string, a ...interface{}) {
 		fails = append(fails, chainh.Failure{Clause: clause, Signature: sig, Detail: fmt.Sprintf(f, a...)})
 	}
-	clk.SetMs(chainh.CaseBaseMs(600000 + (id - onceBase)))
+	chainh.SetCaseClock(clk, 600000+(id-onceBase))
 	name := "co-" + strconv.Itoa(id)
 	park := &parkStat{entered: make(chan struct{}), release: make(chan struct{})}
 	sc := base.NewSlotChain()
@@ -464,7 +464,7 @@ func runFreshNodeRace(id, rounds int, clk *vclock.Clock) (*freshInput, []chainh.
 			fails = append(fails, chainh.Failure{Clause: clause, Signature: sig, Detail: fmt.Sprintf(f, a...)})
 		}
 	}
-	clk.SetMs(chainh.CaseBaseMs(700000 + (id - freshBase)))
+	chainh.SetCaseClock(clk, 700000+(id-freshBase))
 	for rd := 0; rd < rounds; rd++ {
 		name := "cf-" + strconv.Itoa(id) + "-" + strconv.Itoa(rd)
 		entries := make([]*base.SentinelEntry, in.N)
